@@ -1,6 +1,8 @@
 import Ruint.Lemmas.ModularInv
 import Ruint.Lemmas.GenValue
 import Ruint.Lemmas.ModularLimbs
+import Ruint.Lemmas.GenUintModMod
+import Ruint.Props.C14
 
 /-!
 # C10 — modular arithmetic returns the canonical residue for every modulus
@@ -149,5 +151,13 @@ theorem gen_add_mod_eq (bits L a b m : ℕ) (hm : m < 2 ^ bits) :
 theorem gen_pow_mod_eq (bits L a e m : ℕ) :
     Ruint.Gen.val_pow_mod bits bits L a e m = powMod bits a e m :=
   Ruint.GenValue.pow_mod_eq bits L a e m
+
+/-- `mul_mod` at the limb level as regenerated from `src/modular.rs` (zero product buffer of `nlimbs(2·BITS)` limbs — a
+    declared rewrite of the raw-pointer view —, the generated `addmul`, the generated `algorithms::div`, the remainder
+    returned) equals the limb-level model, whose value the theorems above give. -/
+theorem gen_mul_mod_limbs_eq (bits : ℕ) (hB : 2 * bits + 63 < 2 ^ 64) (a b m : List ℕ)
+    (ha : Canon bits a) (hb : Canon bits b) (hm : Canon bits m) (f : ℕ) (hf : 4 * nlimbs bits + 2 < f) :
+    Ruint.Gen.uint_mul_mod f bits (nlimbs bits) a b m = Ruint.ModularL.mulMod bits a b m :=
+  Ruint.GenUintMod.mul_mod_eq Ruint.C14.gen_div_eq bits hB a b m ha hb hm f hf
 
 end Ruint.C10
